@@ -5,7 +5,7 @@
    kinds: 0 = molecule built by assignment, 1 = overflow singleton, 2 = invalid fragment yielded alone. *)
 From Coq Require Import ZArith List Bool Permutation.
 Import ListNotations.
-From SCMO Require Import Lib.Val Model.C06 Proofs.C06 Proofs.C06_dup Proofs.C06_main Proofs.C06_greedy Proofs.C06_cap.
+From SCMO Require Import Lib.Val Model.C06 Proofs.C06 Proofs.C06_dup Proofs.C06_main Proofs.C06_greedy Proofs.C06_cap Proofs.C06_state.
 Open Scope Z_scope.
 
 (* the iterator returns whenever the cap is None or >= 1 *)
@@ -116,6 +116,23 @@ Theorem C06_retag_idempotent : forall c l, tagged c (retag c l) = tagged c l.
 Proof. exact retag_idempotent. Qed.
 Print Assumptions C06_retag_idempotent.
 
+(* the molecule attributes the comparison reads are the running updates of _add_fragment: appending a fragment
+   is one update step (Counter increment; site max on reverse / min otherwise; span min start / max end; strand
+   = last non-None; sample of the first; chromosome and match_hash of the last fragment) *)
+Theorem C06_running_state : forall c fs f, fs <> [] ->
+  counter (map f_umi (fs ++ [f])) = counter_add (f_umi f) (counter (map f_umi fs)) /\
+  site_of (fs ++ [f]) = site_step (site_of fs) f /\
+  start_of (fs ++ [f]) = Z.min (f_site f) (start_of fs) /\ end_of (fs ++ [f]) = Z.max (f_end f) (end_of fs) /\
+  strand_of (fs ++ [f]) = (if f_strand f =? 2 then strand_of fs else f_strand f) /\
+  cell_of (fs ++ [f]) = cell_of fs /\ chrom_of (fs ++ [f]) = f_contig f /\ hash_of c (fs ++ [f]) = key c f.
+Proof. exact running_state. Qed.
+Print Assumptions C06_running_state.
+
+(* the representative UMI has a maximal count *)
+Theorem C06_most_common_max : forall c x, In x c -> exists b, In b c /\ most_common c = fst b /\ snd x <= snd b.
+Proof. exact most_common_max. Qed.
+Print Assumptions C06_most_common_max.
+
 (* D9: with the unpatched write_tags (bit only ever set) a molecule whose reads arrive flagged has NO primary *)
 Theorem C06_one_primary_unpatched_refuted : exists frags out m, assign (d9_cfg false) frags = Some out /\ In m out /\
   filter (fun x => negb (t_dup x)) (write_tags false m) = [].
@@ -124,10 +141,6 @@ Print Assumptions C06_one_primary_unpatched_refuted.
 
 (* non-vacuity: UMIs AAA, AAT, ANA, TTT at one NLA site with distance 1, the second AAA arriving flagged duplicate,
    one fragment on the other strand: AAT and ANA join AAA's molecule, TTT and the reverse fragment do not *)
-Definition ex_frag (id strand : Z) (umi : list Z) (dup : bool) : frag :=
-  {| f_id := id; f_cell := 0; f_strand := strand; f_contig := 0; f_site := 1000; f_end := 0; f_umi := umi;
-     f_valid := true; f_dup := dup |}.
-Definition ex_cfg : cfg := {| c_cls := 1; c_d := 1; c_r := 0; c_cap := None; c_yinv := true; c_yover := true; c_fixed := true |}.
 Example C06_example :
   option_map (map (fun m => map (fun t => (t_id t, t_rc t, t_dup t, t_af t)) (write_tags true m)))
     (assign ex_cfg [ex_frag 0 0 [65;65;65] true; ex_frag 1 0 [65;65;84] true; ex_frag 2 1 [65;65;65] false;
